@@ -2,7 +2,7 @@
 # usage: tools/seedtests.sh <outdir> <n> <pytest paths...> : run repository tests on a scratch copy with the seeded patch applied
 out=$1; n=$2; shift 2
 d=$(mktemp -d /dev/shm/pysdc-st-XXXX)
-cp -r /repo/pySDC /repo/pyproject.toml $d/ 2>/dev/null
+cp -r /repo/pySDC /repo/pyproject.toml $d/ 2>/dev/null; mkdir -p $d/data
 patch -p1 -s -d $d -i $out/patch_$n.diff || { echo "patch failed"; rm -rf $d; exit 2; }
 /verif/tools/basecheck.py --root $d "$@"
 rc=$?
